@@ -363,15 +363,15 @@ pub struct HmcCase {
 }
 
 fn hmc_strategy() -> BoxedStrategy<HmcCase> {
-    bx((gauss_spec(4, 20.0), 1usize..=5, any::<bool>(), 1usize..8, 0usize..6, 0usize..6, 0usize..4, 0.1f64..1.2, any::<u64>()).prop_map(
+    bx((gauss_spec(4, 20.0), 1usize..=5, any::<bool>(), prop_oneof![30 => 1usize..8, 1 => 1020usize..1100, 1 => 2040usize..2100], 0usize..6, 0usize..6, 0usize..4, 0.1f64..1.2, any::<u64>()).prop_map(
         |(spec, chains, f64_backend, a, b, d, n_leapfrog, eps_frac, data_seed)| HmcCase {
             spec,
-            chains,
+            chains: if a > 100 { chains.min(2) } else { chains },
             f64_backend,
             a,
             b,
             d,
-            n_leapfrog,
+            n_leapfrog: if a > 100 { n_leapfrog.min(1) } else { n_leapfrog },
             eps_frac: R(eps_frac),
             data_seed,
         },
@@ -489,6 +489,9 @@ fn hmc_generic<B: burn::tensor::backend::AutodiffBackend>(c: &HmcCase, cov: &mut
     if c.n_leapfrog == 0 {
         cov.class("L=0");
     }
+    if c.a > 1000 {
+        cov.class("n_collect>1000");
+    }
     if c.d >= 1 && c.a >= 2 && c.chains >= 2 {
         cov.nontrivial_u64(fingerprint(c));
     }
@@ -509,6 +512,9 @@ fn check_hmc(c: &HmcCase, cov: &mut Cov) -> CheckResult {
 
 #[derive(Debug, Clone, Serialize, Deserialize)]
 pub struct NutsCase {
+    /// run the multi-chain comparison with T = f32 on the f64 backend (T narrower than the backend float)
+    #[serde(default)]
+    pub narrow_t: bool,
     pub spec: Spec,
     pub chains: usize,
     pub seed: u64,
@@ -520,8 +526,9 @@ pub struct NutsCase {
 }
 
 fn nuts_strategy() -> BoxedStrategy<NutsCase> {
-    bx((gauss_spec(3, 10.0), 1usize..=4, super::c18::seed_strategy(), 1usize..6, 0usize..5, 0usize..6, any::<u64>(), 1usize..=8).prop_map(
+    bx((gauss_spec(3, 10.0), prop_oneof![5 => 1usize..=4, 1 => 9usize..=20], super::c18::seed_strategy(), 1usize..6, 0usize..5, 0usize..6, any::<u64>(), 1usize..=8).prop_map(
         |(spec, chains, seed, c1, c2, d, data_seed, threads)| NutsCase {
+            narrow_t: data_seed % 4 == 0,
             spec,
             chains,
             seed,
@@ -600,6 +607,27 @@ fn check_nuts(c: &NutsCase, cov: &mut Cov) -> CheckResult {
                 c.chains
             );
         }
+    }
+    if c.narrow_t {
+        // T = f32 on NdArray<f64>: the runner must return exactly what its chains return
+        let inits32: Vec<Vec<f32>> = inits.iter().map(|r| r.iter().map(|v| *v as f32).collect()).collect();
+        let mut multi = NUTS::<f32, B, HTarget>::new(target.clone(), inits32.clone(), 0.8).set_seed(c.seed);
+        let all = no_panic(|| pool.install(|| multi.run(n2, c.d))).map_err(|m| Fail::new("run-panic", format!("NUTS::<f32, f64 backend>::run panicked: {m}")))?;
+        let av = to_vec(&all);
+        for i in 0..c.chains.min(3) {
+            let mut single = NUTSChain::<f32, B, HTarget>::new(target.clone(), inits32[i].clone(), 0.8).set_seed(c.seed.wrapping_add(i as u64).wrapping_add(1));
+            let sv = to_vec(&single.run(n2, c.d));
+            for k in 0..n2 * dim {
+                ensure!(
+                    sv[k].to_bits() == av[i * n2 * dim + k].to_bits(),
+                    "run-multi-vs-single narrow-T",
+                    "NUTS::<f32, NdArray<f64>>::run: chain {i} returns {} where the stand-alone chain returns {} (flat index {k})",
+                    av[i * n2 * dim + k],
+                    sv[k]
+                );
+            }
+        }
+        cov.class("T=f32-on-f64-backend");
     }
     if c.d >= 1 && n2 >= 2 && c.chains >= 2 {
         cov.nontrivial_u64(fingerprint(c));
